@@ -105,7 +105,26 @@ prop('C15', level='other', design_ref='DESIGN.md section 6 (C15)',
      not_decided=['the undo clause inside advance_block is not under deductive contract yet'],
      assumptions=[])
 
-for _pid in ['C01', 'C02', 'C03', 'C04', 'C05', 'C07', 'C08', 'C09', 'C10', 'C11', 'C13', 'C14']:
+prop('C13', level='other', design_ref='DESIGN.md section 6 (C13)',
+     technique='deductive verification of the transaction readers / packers (VCs over byte sequences, z3 + cvc5) + '
+               'bounded native comparison for block streaming',
+     text='Readers: exact escape sets, cursor arithmetic, "a successful parse consumed only bytes that exist"; varint '
+          'round trip over the real functions.  Block streaming for every chunk size is a bounded stand-in.',
+     note='Trusted: T-STRUCT. Bounded: 10 block shapes x ~20 chunk sizes x both directions; transactions on every varint boundary '
+          'x every truncation point.',
+     explanation='Deductive part on electrumx/lib/tx.py; OnDiskBlock.iter_txs/_chunk_offsets/iter_txs_reversed bounded (labelled).',
+     bounded=[{'obligation': 'tx.parse.bounded', 'driver': 'tx_parse.py', 'request': {'part': 'tx'},
+               'what': 'parse/serialize/hash identity and failure on every truncation',
+               'bound': '58 transactions on all varint width boundaries (counts 0..253, script lengths 0..65537), every truncation point'},
+              {'obligation': 'tx.OnDiskBlock.bounded', 'driver': 'tx_parse.py', 'request': {'part': 'block'},
+               'what': 'iter_txs yields the transactions in order, iter_txs_reversed the exact reverse',
+               'bound': '10 block shapes (1..300 transactions, transactions larger than a chunk at every position) x ~20 chunk '
+                        'sizes from the varint length to larger than the block x both directions'},
+              {'obligation': 'tx.OnDiskBlock.small-chunk', 'driver': 'tx_parse.py', 'request': {'part': 'small-chunk'},
+               'expect_kf': 'KF-C13-1', 'what': 'probe of the listed known finding', 'bound': '1 case'}],
+     not_decided=['OnDiskBlock generators are not under deductive contract'], assumptions=[])
+
+for _pid in ['C01', 'C02', 'C03', 'C04', 'C05', 'C07', 'C08', 'C09', 'C10', 'C11', 'C14']:
     na(_pid, 'contracts for this property are not yet built in this round (planned: DESIGN.md section 6); nothing is claimed')
 na('C06', 'quantifies over cancellation instants of an asyncio task while worker-thread jobs keep running: not '
           'expressible as pre/postconditions of functions in a sequential or cooperative model (DESIGN.md section 6, C06)')
